@@ -70,6 +70,8 @@ type FuncGen struct {
 	invTouched map[string]touched
 	returns    []retEdge
 	fspec      *frameSpec
+	pendingTrace *traceRec
+	lastAssert map[string]int
 	ownAllocs  []string
 	inInv      bool
 	dirty      map[string]bool
@@ -115,6 +117,10 @@ func (fg *FuncGen) assume(f string) {
 	// one assertion per conjunct (finer relevance slicing)
 	for _, p := range splitGoal(f) {
 		if p != "true" && p != "" {
+			if fg.lastAssert[p] > 0 {
+				continue // identical assertion already in the prefix
+			}
+			fg.lastAssert[p] = 1
 			fg.asserts = append(fg.asserts, p)
 		}
 	}
@@ -641,13 +647,19 @@ func (fg *FuncGen) instrMods(in ssa.Instruction, ms *modSet) {
 	case ssa.CallInstruction:
 		fg.callMods(x.Common(), ms)
 		ms.ghosts["$alloc"] = true
-		ms.ghosts["$seq"] = true
-		for k := range fg.ghostSort {
-			if strings.HasPrefix(k, "$calls:") || strings.HasPrefix(k, "$callarg:") || strings.HasPrefix(k, "$callseq:") {
-				ms.ghosts[k] = true
+		if _, isB := x.Common().Value.(*ssa.Builtin); !isB {
+			cl := fg.resolveCallee(x.Common())
+			if fg.g.traced[cl.name] {
+				ms.ghosts["$seq"] = true
+				for k := range fg.ghostSort {
+					for _, p := range []string{"$calls:", "$callarg:", "$callseq:", "$callres:"} {
+						if k == p+cl.name || strings.HasPrefix(k, p+cl.name+":") {
+							ms.ghosts[k] = true
+						}
+					}
+				}
 			}
 		}
-		ms.ghosts["$anycall"] = true
 	}
 }
 
@@ -678,6 +690,7 @@ func (fg *FuncGen) run() {
 	fg.assume(fmt.Sprintf("(> %s 0)", fg.allocTerm(st)))
 	fg.ghostSort["$seq"] = "Int"
 	fg.ghostInits["$seq"] = "0"
+	fg.preregisterTraces()
 	for _, p := range fn.Params {
 		name := e.declConst("p_"+p.Name(), e.sortOf(p.Type()))
 		v := Val{T: name, Typ: p.Type()}
@@ -1036,4 +1049,43 @@ func (fg *FuncGen) rangeInv(li *loopInfo, st *State) string {
 		return lo
 	}
 	return and(lo, or(e.iop("<", ri, li.rangeLen, true), fmt.Sprintf("(= %s %s)", ri, e.ilit(-1))))
+}
+
+// preregisterTraces declares the ghost trace cells of every traced callee this function
+// calls, so that loops havoc them from their first visit on.
+func (fg *FuncGen) preregisterTraces() {
+	for _, b := range fg.fn.Blocks {
+		for _, in := range b.Instrs {
+			ci, ok := in.(ssa.CallInstruction)
+			if !ok {
+				continue
+			}
+			c := ci.Common()
+			if _, isB := c.Value.(*ssa.Builtin); isB {
+				continue
+			}
+			cl := fg.resolveCallee(c)
+			if !fg.g.traced[cl.name] {
+				continue
+			}
+			fg.ghostSort["$calls:"+cl.name] = "Int"
+			fg.ghostInits["$calls:"+cl.name] = "0"
+			fg.ghostSort["$callseq:"+cl.name] = "(Array Int Int)"
+			fg.ghostInits["$callseq:"+cl.name] = "((as const (Array Int Int)) 0)"
+			var ats []types.Type
+			if c.IsInvoke() || c.StaticCallee() == nil {
+				ats = append(ats, c.Value.Type())
+			}
+			for _, a := range c.Args {
+				ats = append(ats, a.Type())
+			}
+			for j, t := range ats {
+				fg.ghostSort[fmt.Sprintf("$callarg:%s:%d", cl.name, j)] = fmt.Sprintf("(Array Int %s)", fg.enc.sortOf(t))
+			}
+			rs := cl.sig.Results()
+			for i := 0; i < rs.Len(); i++ {
+				fg.ghostSort[fmt.Sprintf("$callres:%s:%d", cl.name, i)] = fmt.Sprintf("(Array Int %s)", fg.enc.sortOf(rs.At(i).Type()))
+			}
+		}
+	}
 }
